@@ -256,7 +256,15 @@ def batch_stats(us, nbatch=32, burn=0.1):
                 means.append(sum(chunk) / m)
         mu = sum(means) / nbatch
         var = sum((x - mu) ** 2 for x in means) / (nbatch - 1)
-        stats.append((mu, math.sqrt(var / nbatch)))
+        se = math.sqrt(var / nbatch)
+        # correlation beyond one batch length (slowly mixing separations of two molecules in a large box) makes the batch
+        # means dependent and this standard error too small: the same estimate from 4 times longer batches is taken if larger
+        nb4 = nbatch // 4
+        if nb4 >= 6:
+            means4 = [sum(means[4 * j:4 * j + 4]) / 4 for j in range(nb4)]
+            mu4 = sum(means4) / nb4
+            se = max(se, math.sqrt(sum((x - mu4) ** 2 for x in means4) / (nb4 - 1) / nb4))
+        stats.append((mu, se))
     return stats
 
 
@@ -376,7 +384,7 @@ def run_chains(ctx, jobs, timeout):
     return out
 
 
-def analyse(ctx, groups, data, stage):
+def analyse(ctx, groups, data, stage, zcut=5.0, all_bins=False):
     """Returns list of flagged findings: (group, variant, obs, description, kind)."""
     flagged = []
     refs_cache = {}
@@ -411,9 +419,8 @@ def analyse(ctx, groups, data, stage):
                     ctx.count("observable_tests_against_shipped_reference" if shipped else
                               "observable_tests_against_independent_reference")
                     ctx.maxi("max_abs_z_seen", max(abs((mu - EXPECT[i]) / se) if se > 0 else 0.0 for i, (mu, se) in enumerate(st)))
-                    dev = deviations(st)
-                    if dev:
-                        i, z, eff = max(dev, key=lambda t: abs(t[1]))
+                    dev = deviations(st, zcut=zcut)
+                    for i, z, eff in (dev if all_bins else ([max(dev, key=lambda t: abs(t[1]))] if dev else [])):
                         what = (f"{g['name']}/{v}: observable {obs_name} deviates from the "
                                 f"{'shipped reference CDF' if shipped else 'independently computed Boltzmann distribution'}: "
                                 f"{'bin %d of %d' % (i, NBINS) if i < NBINS else 'mean of F(x)'} is {st[i][0]:.4f} +- "
@@ -439,9 +446,8 @@ def analyse(ctx, groups, data, stage):
                         if sts[names[a]] is None or sts[names[b]] is None:
                             continue
                         ctx.count("variant_pair_tests")
-                        dev = deviations(sts[names[a]], sts[names[b]])
-                        if dev:
-                            i, z, eff = max(dev, key=lambda t: abs(t[1]))
+                        dev = deviations(sts[names[a]], sts[names[b]], zcut=zcut)
+                        for i, z, eff in (dev if all_bins else ([max(dev, key=lambda t: abs(t[1]))] if dev else [])):
                             what = (f"{g['name']}: variants {names[a]} and {names[b]} disagree on observable {obs_name}: "
                                     f"{'bin %d' % i if i < NBINS else 'mean'} {sts[names[a]][i][0]:.4f} vs "
                                     f"{sts[names[b]][i][0]:.4f} (z = {z:.1f})")
@@ -502,10 +508,12 @@ def main(ctx):
         for j, r in zip(jobs2, res2):
             if r and r.get("payload"):
                 data2[(j["group"], j["variant"], j["seed"])] = r["payload"]["obs"]
-        flagged2 = analyse(ctx, [g for g in groups if g["name"] in gnames], data2, 2)
+        # the replication tests ONE pre-registered hypothesis per flag: the same observable deviates in the same bin with the
+        # same sign (z > 3.5 with 4x the samples); a fluctuation of a slowly mixing chain does not come back in the same bin
+        flagged2 = analyse(ctx, [g for g in groups if g["name"] in gnames], data2, 2, zcut=3.5, all_bins=True)
         ctx.counters["replications_run"] = len(jobs2)
         for f in flagged:
-            again = [f2 for f2 in flagged2 if f2[:3] == f[:3] and f2[4] == f[4] and f2[5] == f[5]]
+            again = [f2 for f2 in flagged2 if f2[:3] == f[:3] and f2[4] == f[4] and f2[5] == f[5] and f2[6] == f[6]]
             if again:
                 key = "C01:distribution-differs-from-reference" if f[4] == "reference" else "C01:variants-disagree"
                 ctx.violation(key, f[3] + "  [confirmed by replication: " + again[0][3] + "]",
